@@ -189,7 +189,7 @@ func genC09(seed int64, tier string) *Scenario {
 		// the same name: which one the table ends up with must not depend on map or arrival order
 		sc.Files = append(sc.Files, File{Path: "d0/tbl.lua", Data: Bytes("SharedTbl = {}\nSharedTbl.own = 1\n")})
 		for k := 0; k < 2+r.Intn(3); k++ {
-			sc.Files = append(sc.Files, File{Path: fmt.Sprintf("d%d/ext%d.lua", k%ndirs, k), Data: Bytes(fmt.Sprintf("function SharedTbl:same(a%s)\n  return a\nend\nfunction SharedTbl:only%d() end\nSharedTbl.field = %d\n", strings.Repeat(", b", k), k, k))})
+			sc.Files = append(sc.Files, File{Path: fmt.Sprintf("d%d/ext%d.lua", k%ndirs, k), Data: Bytes(fmt.Sprintf("SharedTbl.v%s = %d\nfunction SharedTbl:same(a%s)\n  return a\nend\nfunction SharedTbl:only%d() end\nSharedTbl.field = %d\n", strings.Repeat("w", k), k, strings.Repeat(", b", k), k, k))})
 		}
 		use.WriteString("print(SharedTbl.own, SharedTbl.field)\nSharedTbl:same(1)\nSharedTbl:only0()\n")
 		sc.Knobs["sharedTbl"] = true
@@ -347,6 +347,11 @@ func genC09(seed int64, tier string) *Scenario {
 	sc.Ops = append(sc.Ops, Op{Kind: "req", Method: "completion", Path: "use.lua", Pos: &Pos{0, 2}})
 	sc.Ops = append(sc.Ops, Op{Kind: "req", Method: "documentSymbol", Path: "use.lua"})
 	sc.Ops = append(sc.Ops, Op{Kind: "req", Method: "workspaceSymbol", Arg: []string{"dup", "g1", "same", "Cls", "shared", "", "k", "f"}[r.Intn(8)]})
+	if shared, _ := sc.Knobs["sharedTbl"].(bool); shared {
+		// the members other files added to the table: several of them start at the same position
+		// (of their own files) and differ in length only
+		sc.Ops = append(sc.Ops, Op{Kind: "req", Method: "workspaceSymbol", Arg: []string{"", "SharedTbl", "SharedTbl.v"}[r.Intn(3)]})
+	}
 	if hugeQuery {
 		sc.Ops = append(sc.Ops, Op{Kind: "req", Method: "workspaceSymbol", Arg: ""}, Op{Kind: "req", Method: "workspaceSymbol", Arg: "hk"})
 	}
